@@ -72,6 +72,36 @@ Section Handles.
     destruct (filter _ fs); [by apply elem_of_nil in Hin|cbn; lia].
   Qed.
 
+  Lemma occ_opt_zero fs v : (∀ j, fs !! j ≠ Some (Some v)) → occ_opt fs v = 0%nat.
+  Proof.
+    induction fs as [|f fs IH]; [done|]. intros H.
+    rewrite occ_opt_cons_ne by (intros ->; by apply (H 0%nat)).
+    apply IH. intros j. apply (H (S j)).
+  Qed.
+  Lemma occ_opt_pos_inv fs v : (0 < occ_opt fs v)%nat → ∃ j, fs !! j = Some (Some v).
+  Proof.
+    induction fs as [|f fs IH]; [cbn; lia|]. intros Hpos.
+    destruct (decide (f = Some v)) as [->|Hne]; [by exists 0%nat|].
+    rewrite occ_opt_cons_ne in Hpos by done. destruct (IH Hpos) as [j Hj]. by exists (S j).
+  Qed.
+
+  (** conversely, when every stored handle is reported the counts agree *)
+  Lemma occ_traced_all fs ts v :
+    (∀ j, fs !! j = Some (Some v) → ts !! j = Some true) →
+    occ (traced_list fs ts) v = occ_opt fs v.
+  Proof.
+    revert ts. induction fs as [|f fs IH]; intros ts H; [done|].
+    destruct ts as [|t ts].
+    - rewrite traced_list_nil_r, occ_nil. symmetry. apply occ_opt_zero.
+      intros j Hj. by specialize (H j Hj).
+    - rewrite traced_list_cons. specialize (IH ts (λ j, H (S j))).
+      destruct f as [w|]; [destruct (decide (w = v)) as [->|Hne]|].
+      + rewrite occ_opt_cons_eq. specialize (H 0%nat eq_refl). injection H as ->.
+        rewrite occ_cons_eq. lia.
+      + rewrite occ_opt_cons_ne by congruence. destruct t; [rewrite occ_cons_ne by done|]; lia.
+      + rewrite occ_opt_cons_ne by done. destruct t; lia.
+  Qed.
+
   Lemma kids_unfold m p x :
     get m p = Some x →
     kids P m p =
@@ -122,6 +152,21 @@ Section Handles.
   Proof.
     induction l as [|a l IH]; [done|]. intros H. cbn. rewrite (H a) by left.
     rewrite IH; [done|]. intros x Hx. apply H. by right.
+  Qed.
+
+  Lemma kids_all_hnd m p v x :
+    get m p = Some x → o_cleaner x ≠ Some v →
+    (∀ j, o_fields x !! j = Some (Some v) →
+          c_traced (class_of P (o_cls x)) !! j = Some true ∧
+          o_ismap x = false ∧ o_borrowed x = false ∧ o_vst x = VLive) →
+    occ (kids P m p) v = hnd m p v.
+  Proof.
+    intros Hx Hc Hf. pose proof (kids_le_hnd m p v) as Hle. unfold hnd in *.
+    rewrite Hx in *. unfold handles_of in *. rewrite decide_False in * by done.
+    destruct (decide (0 < occ_opt (o_fields x) v)%nat) as [Hpos|Hz]; [|lia].
+    destruct (occ_opt_pos_inv _ _ Hpos) as [j Hj]. destruct (Hf j Hj) as (_ & Hm & Hb & Hv).
+    rewrite (kids_unfold _ _ _ Hx), Hm, Hv, Hb, Nat.add_0_r. apply occ_traced_all.
+    intros j' Hj'. by apply Hf.
   Qed.
 
   Lemma in_fields_seq m v :
@@ -185,6 +230,33 @@ Section Handles.
           rewrite Hk in Hin. apply elem_of_app in Hin as [?|?]; done. }
         pose proof (sum_list_with_in p (λ p, hnd m p v) k Hpk) as Hin. cbn in Hin. lia.
       + unfold hnd, get. rewrite lookup_ge_None_2 by lia. done.
+  Qed.
+
+  Lemma cnt_all_in_fields m l v :
+    NoDup l → (∀ p, p ∈ l → (p < length (heap m))%nat) →
+    (∀ p, p ∈ l → occ (kids P m p) v = hnd m p v) →
+    (∀ p, p ∉ l → hnd m p v = 0%nat) →
+    cnt P m l v = in_fields m v.
+  Proof.
+    intros Hnd Hlt Hin Hout. rewrite in_fields_seq.
+    assert (Hsub : l ⊆+ seq 0 (length (heap m))).
+    { apply NoDup_submseteq; [done|]. intros p Hp. apply elem_of_seq.
+      specialize (Hlt p Hp). lia. }
+    apply submseteq_Permutation in Hsub as [k Hk].
+    assert (Hsum : sum_list_with (λ p, hnd m p v) (seq 0 (length (heap m))) =
+                   (sum_list_with (λ p, hnd m p v) l + sum_list_with (λ p, hnd m p v) k)%nat).
+    { rewrite <- sum_list_with_app. clear -Hk. revert Hk.
+      generalize (seq 0 (length (heap m))) (l ++ k).
+      induction 1; cbn; lia. }
+    rewrite Hsum.
+    assert (Hk0 : sum_list_with (λ p, hnd m p v) k = 0%nat).
+    { assert (Hndk : NoDup (l ++ k)) by (rewrite <- Hk; apply NoDup_seq).
+      apply NoDup_app in Hndk as (_ & Hdisj & _).
+      assert (Hall : ∀ p, p ∈ k → hnd m p v = 0%nat).
+      { intros p Hp. apply Hout. intros Hl. by apply (Hdisj p Hl). }
+      clear -Hall. induction k as [|a k IH]; [done|]. cbn. rewrite (Hall a) by left.
+      apply IH. intros p Hp. apply Hall. by right. }
+    rewrite Hk0, Nat.add_0_r. unfold cnt. apply sum_list_with_ext_in. done.
   Qed.
 End Handles.
 
